@@ -42,7 +42,9 @@ def ProvedAll : List Rule := ProvedPermDefs ++ ProvedOrder ++ ProvedVars ++ Prov
     fragment is named "", the `field_map is fragment_field_map` shortcut is never taken, and the search does not raise
     (the model's fuel = Python's `RecursionError`). They can fail only for documents with fragment CYCLES (reported by
     `NoFragmentCyclesChecker`) or duplicate / unknown fragment definitions; they are not derived here from the other
-    clauses, hence the `_partial` suffix of the theorems that take them. -/
+    clauses, hence the `_partial` suffix of the theorems that take them. (They ARE derived, for documents passing the
+    driver's static checks, in `Props/C06_overlap_hyps{,2,3}.lean` (val2); the suffix-free statements are in
+    `Props/C06_head.lean`: `verdict_iff_all`, `accepted_spec_valid_all`, `attribution_all`.) -/
 def OverlapHyps (s : SchemaD) (fx : Fixes) (d : Doc) : Prop := Spec.ParentsAgree s d ∧ OverlapSide s d ∧ NoCrash s fx d
 
 /-- the variants of the validator the uniform theorems speak about: the variable collector of /repo HEAD
@@ -74,8 +76,9 @@ def SpecAll (r : Rule) (s : SchemaD) (fx : Fixes) (d : Doc) : Prop :=
   | .overlappingFieldsCanBeMerged => Spec.overlappingFieldsCanBeMerged s d
   | r => SpecOf r s d
 
-theorem rule_iff_all (s : SchemaD) (fx : Fixes) (hfx : HeadVars fx) (d : Doc) (hne : NamesNonEmpty d)
-    (hov : OverlapHyps s fx d) (hnd : (Spec.fragNames d).Nodup) (r : Rule) (hr : r ∈ ProvedAll) :
+/-- the 25 rules other than `OverlappingFieldsCanBeMerged`: no side condition of the merge search -/
+theorem rule_iff_nonoverlap (s : SchemaD) (fx : Fixes) (hfx : HeadVars fx) (d : Doc) (hne : NamesNonEmpty d)
+    (hnd : (Spec.fragNames d).Nodup) (r : Rule) (hr : r ∈ ProvedAll) (ho : r ≠ .overlappingFieldsCanBeMerged) :
     Silent s fx r d ↔ SpecAll r s fx d := by
   simp only [ProvedAll, ProvedPermDefs, List.mem_append] at hr
   rcases hr with (((((hr | hr) | hr) | hr) | hr) | hr) | hr
@@ -108,8 +111,15 @@ theorem rule_iff_all (s : SchemaD) (fx : Fixes) (hfx : HeadVars fx) (d : Doc) (h
     subst hr
     exact rule_values_of_correct_type_iff s fx d
   · simp only [ProvedOverlap, List.mem_cons, List.not_mem_nil, or_false] at hr
-    subst hr
+    exact absurd hr ho
+
+theorem rule_iff_all (s : SchemaD) (fx : Fixes) (hfx : HeadVars fx) (d : Doc) (hne : NamesNonEmpty d)
+    (hov : OverlapHyps s fx d) (hnd : (Spec.fragNames d).Nodup) (r : Rule) (hr : r ∈ ProvedAll) :
+    Silent s fx r d ↔ SpecAll r s fx d := by
+  by_cases ho : r = .overlappingFieldsCanBeMerged
+  · subst ho
     exact rule_overlapping_fields_can_be_merged_iff_partial s fx hfx.2.2.2 d hov.1 hov.2.1 hov.2.2
+  · exact rule_iff_nonoverlap s fx hfx d hne hnd r hr ho
 
 /-- the rules of `ProvedPermDefs` need no hypothesis on `fx` -/
 theorem rule_iff_permdefs (s : SchemaD) (fx : Fixes) (d : Doc) (r : Rule) (hr : r ∈ ProvedPermDefs) :
@@ -157,25 +167,7 @@ theorem spec_valid_accepted_all (s : SchemaD) (fx : Fixes) (hfx : HeadVars fx) (
   · subst ho
     exact rule_overlapping_fields_can_be_merged_no_false_alarm_partial s fx hfx.2.2.2 d (h _ hr)
   · -- the other 25 rules need no overlap side condition
-    have hp := provedAll_complete r hr
-    simp only [ProvedAll, ProvedPermDefs, List.mem_append] at hp
-    rcases hp with (((((hp | hp) | hp) | hp) | hp) | hp) | hp
-    · exact (rule_iff_permdefs s fx d r (by simp only [ProvedPermDefs, List.mem_append]; exact Or.inl hp)).mpr (h r hr)
-    · exact (rule_iff_permdefs s fx d r (by simp only [ProvedPermDefs, List.mem_append]; exact Or.inr hp)).mpr (h r hr)
-    · simp only [ProvedOrder, List.mem_cons, List.not_mem_nil, or_false] at hp; subst hp
-      exact (rule_possible_fragment_spreads_iff s fx d).mpr (h _ hr)
-    · simp only [ProvedVars, List.mem_cons, List.not_mem_nil, or_false] at hp
-      rcases hp with rfl | rfl | rfl | rfl
-      · exact (rule_unique_variable_names_iff s fx d).mpr (h _ hr)
-      · exact (rule_no_undefined_variables_iff s fx hfx.2.1 d).mpr (h _ hr)
-      · exact (rule_no_unused_variables_iff s fx hfx.2.1 d).mpr (h _ hr)
-      · exact (rule_variables_in_allowed_position_iff s fx hfx.1 hfx.2.1 d).mpr (h _ hr)
-    · simp only [ProvedCyc, List.mem_cons, List.not_mem_nil, or_false] at hp; subst hp
-      exact (rule_no_fragment_cycles_iff s fx hfx.2.2.1 d hnd hne).mpr (h _ hr)
-    · simp only [ProvedValues, List.mem_cons, List.not_mem_nil, or_false] at hp; subst hp
-      exact (rule_values_of_correct_type_iff s fx d).mpr (h _ hr)
-    · simp only [ProvedOverlap, List.mem_cons, List.not_mem_nil, or_false] at hp
-      exact absurd hp ho
+    exact (rule_iff_nonoverlap s fx hfx d hne hnd r (provedAll_complete r hr) ho).mpr (h r hr)
 
 /-- **accepted ⇒ valid by all 26 clauses**, under the side conditions of the overlap rule -/
 theorem accepted_spec_valid_all_partial (s : SchemaD) (fx : Fixes) (hfx : HeadVars fx) (d : Doc) (hne : NamesNonEmpty d)
